@@ -71,4 +71,21 @@ theorem C05_positive_spelling (k : Key) (hk : k ∈ allKeys) (st : Spec.NP.Formu
   unfold Relations.predicate genRelations
   simp only [NP.normalize_formula k hk st hj, he]
 
+open Paroxy.Spec.NP Paroxy.NP in
+/-- The same for the NAMED relations: every case spelling of each of the 13 Allen names and 6 synonyms,
+under every decoration of the specification's list (`not `, `is not `, `!`, ` not`, … or none), denotes
+— negated exactly when the decoration says so — the chain of the key the manual gives for that name
+(C16 for the spelling, C08 for the meaning). `("meta/program", "not contains", X)` is an instance. -/
+theorem C05_named_relation (n : Codes) (k : Key) (h : (n, k) ∈ aliases) (d : Str × Str × Bool)
+    (hd : d ∈ decorations) (mask : List Bool) :
+    ∃ pred, genRelations.predicate (d.1 ++ renderName n mask ++ d.2.1) = .ok (pred, d.2.2) ∧
+      ∀ x y : Span, pred x y = true ↔ k.Holds x y := by
+  have hk : k ∈ allKeys := by
+    have : aliases.all (fun p => p.2.balanced) = true := by decide +kernel
+    exact (mem_allKeys k).mpr (List.all_eq_true.mp this (n, k) h)
+  obtain ⟨e, he, hm⟩ := C08.C08_meaning k hk
+  refine ⟨fun x y => e.holds x y, ?_, hm⟩
+  unfold Relations.predicate genRelations
+  simp only [NP.name_spec_decorated n k h d hd mask, he]
+
 end Paroxy.Props.C05
